@@ -19,15 +19,15 @@ KIND_OF = {v.__name__: k for k, v in CLASSES.items()}
 
 LABEL_FAMILIES = {
     "ident": lambda n: list(range(1, n + 1)),
-    "sparse": lambda n: [10, 3, 7, 5, 12, 1, 8][:n],          # order-reversing in places
-    "str": lambda n: ["b", "a", "d", "c", "f", "e", "g"][:n],
+    "sparse": lambda n: [10, 3, 7, 5, 12, 1, 8, 40, 2, 33][:n],          # order-reversing in places
+    "str": lambda n: ["b", "a", "d", "c", "f", "e", "g", "k", "h", "j"][:n],
     "zero": lambda n: list(range(0, n)),
     # labels that are equal-but-not-identical objects when re-created (ints outside the small-int cache,
     # strings built at run time), labels whose hashes collide (hash(-1) == hash(-2)) and whose set
     # iteration order is not ascending, strings of mixed length
-    "big": lambda n: [1000, 300, 70000, 5000, 2 ** 40 + 1, 999, 800][:n],
-    "neg": lambda n: [-1, -2, 13, 8, -7, 21, 10][:n],
-    "long": lambda n: ["node-b", "node-a", "nd-d", "n-c", "node-f", "ee", "g-g"][:n],
+    "big": lambda n: [1000, 300, 70000, 5000, 2 ** 40 + 1, 999, 800, 123456, 257, 4096][:n],
+    "neg": lambda n: [-1, -2, 13, 8, -7, 21, 10, -30, 16, 9][:n],
+    "long": lambda n: ["node-b", "node-a", "nd-d", "n-c", "node-f", "ee", "g-g", "hh-8", "i", "node-j"][:n],
 }
 
 UNSUPPORTED = {
